@@ -115,8 +115,16 @@ def run(ctx):
     ns, ps, cs = n_grid(quick), p_grid(quick), conf_grid(quick)
     idx = 0
 
+    style = [0]
+
     def call(n, p, c, m):
+        style[0] += 1
         try:
+            # the documented signature is (n, p, confidence, method): positional and keyword calls mean the same
+            if style[0] % 3 == 0:
+                return ("ok", ci(n, p, c, m))
+            if style[0] % 3 == 1:
+                return ("ok", ci(n, p, confidence=c, method=m))
             return ("ok", ci(n=n, p=p, confidence=c, method=m))
         except ContractBroken as e:
             return ("contract", str(e))
